@@ -24,6 +24,9 @@ CHECKS = {
             "real": ["include/oneapi/tbb/concurrent_unordered_{map,set}.h, concurrent_{map,set}.h, detail/_concurrent_unordered_base.h (split-ordered list), detail/_concurrent_skip_list.h"]},
     "C13": {"scenarios": ["c13"], "quick_budget_s": 40, "thorough_budget_s": 600,
             "real": ["include/oneapi/tbb/concurrent_priority_queue.h, detail/_aggregator.h"]},
+    "C16": {"scenarios": ["c16"], "quick_budget_s": 50, "thorough_budget_s": 900,
+            "real": ["src/tbb/arena.cpp (slots, occupy_free_slot, nested_arena_context, delegation), market.cpp allotment, threading_control, global_control.cpp, observer_proxy.cpp, isolation in arena_slot/task_dispatcher"],
+            "assumptions": ["the allotment arithmetic 'for all demand vectors' is a pure function: it is exercised by the demand vectors real scenarios produce and guarded by oneTBB's own assertion (see known finding), not checked through a dedicated hook"]},
     "C17": {"scenarios": ["c17"], "quick_budget_s": 45, "thorough_budget_s": 600,
             "real": ["src/tbbmalloc/frontend.cpp, backend.cpp, backref.cpp, large_objects.cpp, tbbmalloc.cpp (compiled with TBB_USE_DEBUG=1 in the asan flavour)"],
             "assumptions": ["'for all request sizes 0..2^64-1' is a pure-input clause: sizes are drawn from a list biased to every size-class boundary, not enumerated", "large blocks are pattern-checked on a sample of positions (first 4096 bytes, every 4099th byte, last 1024 bytes)"]},
@@ -59,6 +62,9 @@ ASSUMPTIONS = [
 NOT_APPLICABLE = {}
 
 MANIFEST_TEXT = {
+    "C16": {"level": "Seeded search over schedules of 1-4 application threads using 1-3 arenas (max_concurrency 1-4, reserved 0-2, three priorities) through execute / enqueue / task_group waits with isolate, on 1-8 simulated CPUs, optionally under global_control(max_allowed_parallelism, 1..4), with observers on every arena; "
+                     "oracle inside every body: threads inside an arena <= max_concurrency (+1 for a one-thread arena with enqueued work), pairwise distinct current_thread_index below the bound, reserved slots only held by application threads, isolation scopes respected while waiting, simultaneous workers in user work <= L-1 (mandatory worker allowed when L-1 == 0); observer entry/exit calls paired per thread.",
+            "note": "threads holding a slot without executing a body are not visible to the oracle (it counts bodies); the allotment-sum clause is covered only through oneTBB's internal assertion (known finding recorded)."},
     "C04": {"level": "Seeded search over schedules (incl. x86-TSO delays on the context objects) of context forests of 2-12 heap-allocated task_group_contexts (bound / isolated) that are bound lazily by nested parallel_for calls exactly as in production, with 1-3 cancel_group_execution calls issued from bodies inside the forest and from external threads, racing with binders; "
                      "oracle at quiescence (binder threads still alive): at most one true per context (exactly one if no ancestor was cancelled), every bound context beneath a cancelled one is cancelled, nothing else is, the state persists until reset, task_group resets its own context.",
             "note": "contexts that outlive the thread they were bound on (orphaned context lists) are outside the scenario; the oracle runs while the binder threads are alive."},
